@@ -340,6 +340,96 @@ impl PartialEq for UserSrc {
 }
 impl Eq for UserSrc {}
 
+/// A user-defined newtype source holding a library source *by value*: the
+/// wrapper and its field live at the same address but are different types
+/// (and hash differently), so behind `dyn Source` they must not be equal.
+#[repr(transparent)]
+#[derive(Clone, Debug)]
+pub struct Tagged<T>(pub T);
+
+impl<T: Source + Hash + PartialEq + Eq + Clone + 'static> Source for Tagged<T> {
+  fn source(&self) -> Cow<str> {
+    self.0.source()
+  }
+  fn rope(&self) -> Rope<'_> {
+    self.0.rope()
+  }
+  fn buffer(&self) -> Cow<[u8]> {
+    self.0.buffer()
+  }
+  fn size(&self) -> usize {
+    self.0.size()
+  }
+  fn map(&self, options: &MapOptions) -> Option<SourceMap> {
+    self.0.map(options)
+  }
+  fn to_writer(&self, writer: &mut dyn std::io::Write) -> std::io::Result<()> {
+    self.0.to_writer(writer)
+  }
+}
+
+impl<T: Source> StreamChunks for Tagged<T> {
+  fn stream_chunks<'a>(
+    &'a self,
+    options: &MapOptions,
+    on_chunk: OnChunk<'_, 'a>,
+    on_source: OnSource<'_, 'a>,
+    on_name: OnName<'_, 'a>,
+  ) -> GeneratedInfo {
+    self.0.stream_chunks(options, on_chunk, on_source, on_name)
+  }
+}
+
+impl<T: Hash> Hash for Tagged<T> {
+  fn hash<H: Hasher>(&self, state: &mut H) {
+    "Tagged".hash(state);
+    self.0.hash(state);
+  }
+}
+
+impl<T: PartialEq> PartialEq for Tagged<T> {
+  fn eq(&self, other: &Self) -> bool {
+    self.0 == other.0
+  }
+}
+impl<T: Eq> Eq for Tagged<T> {}
+
+/// Directed probe for the `dyn Source` comparison: a newtype source against
+/// the field it wraps (same address, different type, different hash) and
+/// against itself. Returns a description of what is wrong, if anything.
+pub fn aliased_newtype_probe() -> Option<String> {
+  type DynS = dyn Source + 'static;
+  fn h(x: &DynS) -> u64 {
+    use std::hash::BuildHasher;
+    std::hash::BuildHasherDefault::<rustc_hash::FxHasher>::default().hash_one(x)
+  }
+  fn check_alias(outer: &DynS, field: &DynS) -> Option<String> {
+    if outer != outer {
+      return Some("a newtype source behind dyn does not equal itself".into());
+    }
+    for (a, b, what) in [(outer, field, "wrapper == field"), (field, outer, "field == wrapper")] {
+      if a == b && h(a) != h(b) {
+        return Some(format!(
+          "{} is true behind dyn Source for a newtype source and the field it wraps (same address, different types), but their hashes differ ({:x} vs {:x})",
+          what,
+          h(a),
+          h(b)
+        ));
+      }
+    }
+    None
+  }
+  let t = Tagged(rspack_sources::RawStringSource::from("let a = 1;\n".to_string()));
+  if let Some(d) = check_alias(&t, &t.0) {
+    return Some(format!("Tagged<RawStringSource>: {}", d));
+  }
+  let t = Tagged(rspack_sources::OriginalSource::new("let a = 1;\n", "a.js"));
+  if let Some(d) = check_alias(&t, &t.0) {
+    return Some(format!("Tagged<OriginalSource>: {}", d));
+  }
+  None
+}
+
 // ---------------------------------------------------------------------------
 // building real sources from specs
 // ---------------------------------------------------------------------------
